@@ -516,9 +516,15 @@ def check_point(pt, only=None):
                     clause, obs = "transformed-raises", got[1]
                 else:
                     clause, obs = "result-differs", canon.diff_tags(b[1], got[1])
+                sig = "%s:%s" % (kind, "gen" if base[0] == "gen" else "corpus")
+                if (clause == "result-differs" and base[0] == "gen" and base[1].get("textcol") and kind.startswith("T8-redelimit")
+                        and isinstance(descr, dict) and any(lay[0] == "dlm_pad" and lay[1] != "none" for lay in
+                                                            ([[k, v] for k, v in descr.get("layout", {}).items()]))
+                        and "curves" in str(obs) and "sections" not in str(obs)):
+                    sig = "T8-padding-kept-in-text-cell"
                 vio.append({
                     "clause": clause,
-                    "sig": "%s:%s" % (kind, "gen" if base[0] == "gen" else "corpus"),
+                    "sig": sig,
                     "witness": {"point": pt, "variant_no": n, "kind": kind, "engine": eng, "descr": descr,
                                 "base_text": text if len(text) < 6000 else text[:6000] + "...",
                                 "text": t if len(t) < 6000 else t[:6000] + "..."},
